@@ -507,7 +507,8 @@ pub fn gen_schema_tokens(rng: &mut Rng, nfields: usize) -> Vec<String> {
                 }
             }
         }
-        t.push(format!("f{}", i));
+        // field names are free text for the parser: now and then one that starts with a multi-byte character
+        t.push(if rng.chance(1, 10) { format!("\u{394}f{}", i) } else { format!("f{}", i) });
         if rng.chance(1, 6) {
             match rng.below(3) {
                 0 => t.push("primary".into()),
@@ -541,7 +542,7 @@ fn join_tokens(rng: &mut Rng, toks: &[String]) -> String {
     s
 }
 
-const ALPHABET: &[u8] = b"()[],;\" a";
+const ALPHABET: &[&str] = &["(", ")", "[", "]", ",", ";", "\"", " ", "a", "\u{e9}"];
 
 pub fn gen_sql(rng: &mut Rng, idx: u64) -> SqlCase {
     let mut texts = vec![];
@@ -573,7 +574,7 @@ pub fn gen_sql(rng: &mut Rng, idx: u64) -> SqlCase {
                         let d = m[k].clone();
                         m.insert(k, d);
                     }
-                    2 => m[k] = rng.pick(&["(", ")", "[", "]", ",", ";", "\"", "enum", "set", "table", "int", ""]).to_string(),
+                    2 => m[k] = rng.pick(&["(", ")", "[", "]", ",", ";", "\"", "enum", "set", "table", "int", "", "\u{394}x", "\u{e9}", "\u{540d}\u{524d}"]).to_string(),
                     _ => {
                         let j = rng.below(m.len() as u64) as usize;
                         m.swap(k, j);
@@ -593,7 +594,7 @@ pub fn gen_sql(rng: &mut Rng, idx: u64) -> SqlCase {
         }
         _ => {
             // short strings over the delimiter alphabet: a contiguous block of the enumeration
-            let block = (idx / 4) % 4000;
+            let block = (idx / 4) % 3704;
             let base = ALPHABET.len() as u64;
             for j in 0..300u64 {
                 let mut n = block * 300 + j;
@@ -605,13 +606,13 @@ pub fn gen_sql(rng: &mut Rng, idx: u64) -> SqlCase {
                     count *= base;
                     len += 1;
                 }
-                let mut s = Vec::with_capacity(len);
+                let mut s = String::new();
                 for _ in 0..len {
-                    s.push(ALPHABET[(n % base) as usize]);
+                    s.push_str(ALPHABET[(n % base) as usize]);
                     n /= base;
                 }
                 let pre = *rng.pick(&["", "", "table t \"c\" ( ", "table t \"c\" ( enum", "table t \"c\" ( int x; \"\" "]);
-                texts.push(format!("{}{}", pre, String::from_utf8(s).unwrap()));
+                texts.push(format!("{}{}", pre, s));
                 must.push(false);
             }
         }
